@@ -81,17 +81,19 @@ def handleFilter (args : List Json) : Json :=
     | _, _, _, _, _, _ => jerr "bad-args"
   | _ => jerr "bad-args"
 
-/-- `["c26_tag", singular pieces, plural pieces|null, count, trim, [[name,value]…]]` -/
+/-- `["c26_tag", singular pieces, plural pieces|null, count, trim, [[name,value]…], nameclass]`;
+`nameclass` = "word" (`\w`) or "noparen" (`[^()%]`), read by the harness from `TranslateNode.re_vars` -/
 def handleTag (args : List Json) : Json :=
   match args with
-  | [sing, plural, count, trim, vars] =>
+  | [sing, plural, count, trim, vars, cls] =>
+    let w : Char → Bool := if asStr? cls == some "noparen" then tagNameChar else asciiWord
     let plural? : Option (Option (List Piece)) :=
       match plural with
       | .null => some none
       | _ => (asPieces? plural).map some
     match asPieces? sing, plural?, asCount? count, asBool? trim, asPairs? vars with
     | some sing, some plural?, some count?, some trim, some vars =>
-      resJson (translateTag asciiWord isPySpace (valOf vars) trim sing plural? count?)
+      resJson (translateTag w isPySpace (valOf vars) trim sing plural? count?)
     | _, _, _, _, _ => jerr "bad-args"
   | _ => jerr "bad-args"
 
